@@ -199,7 +199,11 @@ var witnesses = []fw.Witness{
 		return wfirst(werr(wone("\n\n{{ \"a\" * 2 }}", v, nil), `"/t.jet":3`), werr(wone("\n\n{{ a: 1 }}", v, nil), `"/t.jet":3`), werr(wone("\n\n{{ s[\"x\":1] }}", v, nil), `"/t.jet":3`))
 	}},
 	{Prop: "C12", Name: "line-of-yield-with-content", Run: func() string {
-		return werr(wone("\n{{yield nosuch() content}}\nx\n{{end}}", nil, nil), `"/t.jet":2`)
+		return wfirst(
+			werr(wone("\n{{yield nosuch() content}}\nx\n{{end}}", nil, nil), `"/t.jet":2`),
+			werr(wone("\n\n{{yield nosuch() content}}\na\n\nb\n{{end}}\n", nil, nil), `"/t.jet":3`),
+			werr(wone("{{block b(x=1)}}{{x}}{{end}}\n{{if true}}\n{{yield nosuch() content}}\na\nb\n{{end}}\n{{end}}", nil, nil), `"/t.jet":3`),
+			werr(wone("{{block b(x=1)}}{{x}}{{end}}\n{{range i := ints(0,1)}}\n\n{{yield b(x=nosuch) content}}\na\n{{end}}\n\n{{end}}", nil, nil), `"/t.jet":4`))
 	}},
 	{Prop: "C12", Name: "call-of-non-function", Run: func() string {
 		v := jet.VarMap{}
